@@ -1,8 +1,10 @@
 (* Properties/C06.v — MPE completes only missing entries; exact on Chow-Liu trees. *)
-From Coq Require Import List Arith ZArith Ring Bool.
+From Coq Require Import List Arith ZArith QArith Qcanon Ring Bool.
 From DV Require Import Model.Core Model.Clt Model.Leaves Model.Mpe
-  Proofs.CoreFacts Proofs.CltFacts Proofs.MpeFacts.
+  Proofs.CoreFacts Proofs.CltFacts Proofs.MpeFacts Proofs.MaxTimes
+  Model.QcInst Model.MpeRun Proofs.MpePositive Proofs.CltPositive Proofs.MpePositiveQc.
 Import ListNotations.
+Local Open Scope nat_scope.
 
 Section C06_circuit.
   Variable T : Type.
@@ -62,10 +64,64 @@ Section C06_clt.
   Proof. exact (assign_covers T t0 t1 tadd tmul sel). Qed.
 End C06_clt.
 
+(* the intended instance exists: max-times on the non-negative rationals is a selective commutative
+   semiring, so C06_clt_exact applies to the max-product messages the code computes *)
+Theorem C06_clt_exact_maxtimes : forall t : ctree nnq, NoDup (vars nnq t) -> forall pv r,
+    up nnq nn0 nn1 nnmax nnmul t pv (apply_assign (assign nnq nn0 nn1 nnmax nnmul nnsel t pv r) r) =
+    up nnq nn0 nn1 nnmax nnmul t pv r.
+Proof. exact clt_mpe_exact_maxtimes. Qed.
+
 Print Assumptions C06_preserves_observed.
+Print Assumptions C06_clt_exact_maxtimes.
 Print Assumptions C06_fills_every_missing.
 Print Assumptions C06_descent_covers.
 Print Assumptions C06_clt_exact.
 Print Assumptions C06_clt_joint_indep.
 Print Assumptions C06_clt_assigns_only_missing.
 Print Assumptions C06_clt_assigns_all_missing.
+
+(* ---- positivity clause ---- *)
+(* generic form: over any carrier with a positivity / non-negativity pair closed under the semiring
+   operations, the completion computed by the descent has a positive value whenever the evidence has;
+   node_side collects the per-node conditions (leaf values non-negative, determined by the leaf scope
+   and kept positive by the leaf's own fill; sum weights non-negative, at least one child) *)
+Theorem C06_positive : forall (T : Type) (t0 t1 : T) (tadd tmul : T -> T -> T) (pos nonneg : T -> Prop),
+    nonneg t0 -> nonneg t1 -> pos t1 ->
+    (forall a b, nonneg a -> nonneg b -> nonneg (tadd a b)) -> (forall a b, nonneg a -> nonneg b -> nonneg (tmul a b)) ->
+    (forall a b, nonneg a -> nonneg b -> pos (tadd a b) -> pos a \/ pos b) ->
+    (forall a b, pos a -> nonneg b -> pos (tadd a b)) -> (forall a b, nonneg a -> pos b -> pos (tadd a b)) ->
+    (forall a b, nonneg a -> nonneg b -> pos (tmul a b) -> pos a /\ pos b) -> (forall a b, pos a -> pos b -> pos (tmul a b)) ->
+    ~ pos t0 ->
+    forall sel : T -> T -> bool,
+    (forall a b, sel a b = true -> pos b -> pos a) -> (forall a b, sel a b = false -> pos a -> pos b) ->
+    forall (dom : nat -> list Z) (leaf : Type) (leaf_val : leaf -> row -> T) (leaf_fill : leaf -> row -> list (nat * Z))
+           (t : table T leaf) (r : row),
+    valid T t0 tadd dom leaf leaf_val t -> Forall (node_side T pos nonneg leaf leaf_val leaf_fill) t -> t <> [] ->
+    pos (val T t0 t1 tadd tmul leaf leaf_val t (length t - 1) r) ->
+    pos (val T t0 t1 tadd tmul leaf leaf_val t (length t - 1) (mpe_row T t0 t1 tadd tmul sel leaf leaf_val leaf_fill t r)).
+Proof. exact mpe_row_pos. Qed.
+
+(* Chow-Liu trees: decoding with MAX-product messages keeps the SUM-product probability positive *)
+Theorem C06_clt_positive : forall (T : Type) (t0 t1 : T) (tadd tmx tmul : T -> T -> T) (pos nonneg : T -> Prop),
+    nonneg t0 -> nonneg t1 -> pos t1 -> ~ pos t0 ->
+    (forall a b, nonneg a -> nonneg b -> nonneg (tadd a b)) -> (forall a b, nonneg a -> nonneg b -> nonneg (tmul a b)) ->
+    (forall a b, nonneg a -> nonneg b -> pos (tadd a b) -> pos a \/ pos b) ->
+    (forall a b, pos a -> nonneg b -> pos (tadd a b)) -> (forall a b, nonneg a -> pos b -> pos (tadd a b)) ->
+    (forall a b, nonneg a -> nonneg b -> pos (tmul a b) -> pos a /\ pos b) -> (forall a b, pos a -> pos b -> pos (tmul a b)) ->
+    forall sel : T -> T -> bool,
+    (forall a b, tmx a b = if sel a b then a else b) ->
+    (forall a b, sel a b = true -> pos b -> pos a) -> (forall a b, sel a b = false -> pos a -> pos b) ->
+    forall t : ctree T, ct_nonneg T nonneg t -> NoDup (vars T t) -> forall pv r,
+    pos (up T t0 t1 tadd tmul t pv r) ->
+    pos (up T t0 t1 tadd tmul t pv (apply_assign (assign T t0 t1 tmx tmul sel t pv r) r)).
+Proof. exact clt_decode_pos. Qed.
+
+(* the instance the correspondence runs: exact rationals, built-in leaves (tables and CLTs), np.argmax
+   tie rule; side_b is the decidable side condition evaluated on every generated circuit *)
+Theorem C06_positive_qc : forall (dom : nat -> list Z) (t : qtable) (r : row),
+    valid Qc 0%Qc Qcplus dom qleaf qleaf_val t -> side_b t = true -> t <> [] ->
+    (0 < qroot t r)%Qc -> (0 < qroot t (qmpe sel_first t r))%Qc.
+Proof. exact mpe_positive_qc. Qed.
+Print Assumptions C06_positive.
+Print Assumptions C06_clt_positive.
+Print Assumptions C06_positive_qc.
